@@ -712,3 +712,68 @@ func DeepEqual(a, b interface{}) bool {
 	}
 	return Same(a, b)
 }
+
+// AdoptUnbound binds every model container that has no real counterpart yet (intermediates
+// the library created itself) to the real container found at the same place. It must be
+// called after operations that create containers inside the library, so that replays
+// (which skip the full observation) reach the same bindings.
+func (w *World) AdoptUnbound() {
+	seen := map[interface{}]bool{}
+	var visit func(m interface{})
+	visit = func(m interface{}) {
+		if seen[m] {
+			return
+		}
+		seen[m] = true
+		switch x := m.(type) {
+		case *L:
+			r := w.RL(x)
+			for i, e := range x.E {
+				if isCont(e) {
+					if _, bound := w.real[e]; !bound && r != nil && i < r.Count() {
+						w.bindIfKind(e, r.Get(i))
+					}
+					visit(e)
+				}
+			}
+		case *O:
+			r := w.RO(x)
+			for k, e := range x.M {
+				if isCont(e) {
+					if _, bound := w.real[e]; !bound && r != nil && r.KeyExists(k) {
+						w.bindIfKind(e, r.Get(k))
+					}
+					visit(e)
+				}
+			}
+		}
+	}
+	for _, r := range w.Regs {
+		if r != nil {
+			visit(r)
+		}
+	}
+}
+
+func isCont(v interface{}) bool {
+	switch x := v.(type) {
+	case *L:
+		return x != nil
+	case *O:
+		return x != nil
+	}
+	return false
+}
+
+func (w *World) bindIfKind(m interface{}, rv interface{}) {
+	switch m.(type) {
+	case *L:
+		if l, ok := rv.(at.List); ok && l != nil {
+			w.real[m] = l
+		}
+	case *O:
+		if o, ok := rv.(at.Object); ok && o != nil {
+			w.real[m] = o
+		}
+	}
+}
